@@ -73,12 +73,15 @@ PROPS = {
     "C12": dict(
         pkg="c12", level="exploration",
         tests=[T("TestC12", Q(100000), Q(400000, timeout=900, shards=8)),
-               T("TestC12FSM", Q(3000), Q(15000, timeout=900, shards=8))],
+               T("TestC12FSM", Q(3000), Q(15000, timeout=900, shards=8)),
+               T("TestC12Table", Q(3000), Q(20000, timeout=900, shards=4))],
         fuzz=[dict(target="FuzzC12", seconds=180)],
         rule="TestC12: 2-3 keys (1..1024 bytes; tiny alphabet with 0x00/0xFF, neighbours k.00/k.FF/prefix/last-byte+-1, lengths 1015-1024, bookkeeping look-alikes) checked for "
              "decode(encode(k))==k (DecodeBytes and the reader-based Decoder within its limit), order preservation on every pair, and sorting below the encoded bookkeeping keys. "
              "Non-trivial iff the case holds a strict-prefix pair, a pair differing in exactly one byte, or a key of >=1019 bytes. TestC12FSM: 1-8 such keys stored in a real FSM; wildcard "
-             "read/count/delete and an extreme explicit bound must address exactly the user keys and leave applied/leader index intact (non-trivial iff a key or bound >=1019 bytes). "
+             "read/count/delete and an extreme explicit bound must address exactly the user keys and leave applied/leader index intact (non-trivial iff a key or bound >=1019 bytes). TestC12Table: the same keys stored through table.ActiveTable "
+             "(over the raft stand-in); counted range deletes and range reads whose bounds are stored keys, their successors k+0x00 (longer than a key may be for maximum-length keys), longer extensions and the wildcard "
+             "must select exactly the user keys between them by plain byte comparison (a refusal of an over-long bound is accepted; non-trivial iff such a bound or a key >=1019 bytes occurred). "
              "Distinct = sha256 of case JSON. Thorough adds a native go fuzz campaign (FuzzC12) over key pairs.",
         assumptions=["the accepted key length is 1024 bytes as enforced by storage/table/table.go"],
         technique="property-based testing of algebraic laws (round trip, injectivity, monotonicity) + native coverage-guided fuzzing + cross-check through the real state machine",
